@@ -36,6 +36,8 @@ func NamespaceFromCoreObject(ns *corev1.Namespace) (*Namespace, error) {
 	if _, ok := n.Labels[common.K8sNsNameLabelKey]; !ok {
 		n.Labels[common.K8sNsNameLabelKey] = ns.Name
 	}
+	// the API server sets this label to the namespace's name also when the manifest gives it another value
+	n.Labels[common.K8sNsNameLabelKey] = ns.Name
 
 	return n, nil
 }
